@@ -76,3 +76,24 @@ package signappx
 //@   on call (*pkcs7.SignedData).Verify(_, ext, skip) ret (s, e): cmsOK = (e == nil && !skip && len(ext) == 0)
 //@   ensures @digest_table_comes_from_a_verified_cms_signature ret1 == nil ==> cmsOK && ret0 != nil
 //@   loop 0 sig "for len(digests) > 0" invariant digestmap != nil
+//@
+//@ func setupPeDigest
+//@   property C11
+//@   before call builtin makechan(n): assert @the_result_channel_has_room_for_the_one_result_so_the_helper_never_waits_for_a_receiver n >= 1
+//@
+//@ func setupPeDigest$1
+//@   property C11
+//@   requires r != nil && 1 <= hash && hash <= 19
+//@   ghost sent int = 0
+//@   ghost closedWith error = nil
+//@   ghost closed bool = false
+//@   ghost digErr error = nil
+//@   on call authenticode.DigestPE(src, _, _) ret (dg, e): digErr = e
+//@   before call authenticode.DigestPE(src, _, _): assert @the_helper_digests_what_comes_through_its_pipe src == iface(r)
+//@   on call builtin send(c, v) ret (): sent = sent + 1
+//@   before call builtin send(c, _): assert @exactly_one_result_is_sent c == ch && sent == 0
+//@   on call (*io.PipeReader).CloseWithError(p, e) ret (x): closed = closed || p == atcall(r); closedWith = e
+//@   on call (*io.PipeReader).Close(p) ret (x): closed = closed || p == atcall(r)
+//@   ensures @exactly_one_result_is_sent_on_every_path sent == 1
+//@   ensures @the_pipe_reader_is_closed_on_every_path_so_the_producer_never_blocks closed
+//@   ensures @a_failed_digest_closes_the_pipe_with_an_error digErr != nil ==> closedWith != nil
